@@ -388,6 +388,18 @@ where
                                 }
                             })
                             .unwrap(),
+                        Some(match_error_node_index)
+                            if call_graph[match_error_node_index]
+                                .as_hydrated_component(component_db, computation_db)
+                                .and_then(|c| c.output_type().cloned())
+                                .as_ref()
+                                == Some(&component_db.pavex_error) =>
+                        {
+                            // The fallible component returns a `pavex::Error`: there is no
+                            // `pavex::Error::new` invocation, error observers borrow the
+                            // error straight from the error matcher.
+                            match_error_node_index
+                        }
                         Some(match_error_node_index) => {
                             // We can now find the `pavex::Error::new` invocation as one of
                             // the children of the error matcher.
